@@ -763,10 +763,11 @@ pub fn run(args: &Args, report: &Report) {
         .extra
         .get("per-shard")
         .and_then(|s| s.parse().ok())
-        .unwrap_or(args.by_tier(3, 40));
+        .unwrap_or(args.by_tier(3, 16));
     let args2 = args.clone();
     let report2 = report.clone();
-    run_shards(report, args, 16, move |shard, shard_seed| {
+    let shards: usize = args.extra.get("shards").and_then(|s| s.parse().ok()).unwrap_or(16);
+    run_shards(report, args, shards, move |shard, shard_seed| {
         for it in 0..per_shard {
             run_history(&args2, &report2, shard, shard_seed, it, &p, selftest);
         }
@@ -777,13 +778,13 @@ pub fn run(args: &Args, report: &Report) {
 fn finish(args: &Args, report: &Report, selftest: u32, replay: bool) {
     if !replay {
         let t = |q: u64, th: u64| args.by_tier(q, th);
-        report.require("histories", t(24, 500));
+        report.require("histories", t(24, 200));
         report.require("views.ok.history_contiguous", t(1000, 10_000));
         report.require("views.ok.state_differs_from_latest", t(1000, 10_000));
         report.require("views.no_history.gap_above", t(1000, 10_000));
         report.require("rollbacks.ok", t(50, 500));
         report.require("restarts.policy_changed", t(15, 150));
-        report.require("held_views.rechecked", t(50, 500));
+        report.require("held_views.rechecked", t(50, 300));
         report.require("view_reads", t(60_000, 600_000));
     }
     if selftest > 0 && report.violation_count() == 0 {
